@@ -1033,6 +1033,20 @@ func isVerdictInstr(P *Program, ins ssa.Instruction, depth int) bool {
 				return setsVerdictOnAllPaths(P, callee, depth-1)
 			}
 		}
+		// a local closure that captured the response (`deny := func(code codes.Code) { setDenyResponse(resp, …, code) }`)
+		if depth > 0 {
+			if mc, isMC := resolveCell(stripConv(x.Common().Value)).(*ssa.MakeClosure); isMC {
+				captures := false
+				for _, b := range mc.Bindings {
+					if typeID(derefType(derefType(b.Type()))) == strings.TrimPrefix(idCheckResponse, "*") || typeID(b.Type()) == idCheckResponse {
+						captures = true
+					}
+				}
+				if cf, isF := mc.Fn.(*ssa.Function); isF && captures {
+					return setsVerdictOnAllPaths(P, cf, depth-1)
+				}
+			}
+		}
 	}
 	return false
 }
@@ -1437,7 +1451,16 @@ func mapIsMade(P *Program, m ssa.Value, depth int) (bool, string) {
 			if fa, ok := x.X.(*ssa.FieldAddr); ok {
 				id := fieldAddrID(fa)
 				found := false
-				for _, fn := range P.Funcs {
+				scan := append([]*ssa.Function{}, P.Funcs...)
+				for _, sp := range P.SSA {
+					// package-level variables initialised with a literal: the stores are in the package initialiser
+					if sp != nil {
+						if initFn := sp.Func("init"); initFn != nil {
+							scan = append(scan, initFn)
+						}
+					}
+				}
+				for _, fn := range scan {
 					for _, b := range fn.Blocks {
 						for _, ins := range b.Instrs {
 							if st, ok := ins.(*ssa.Store); ok {
